@@ -869,7 +869,7 @@ pub fn run(ctx: &mut Ctx) {
     let mut per_bound: BTreeMap<usize, u64> = BTreeMap::new();
     let mut min_completed = usize::MAX;
     for (s, b) in &scns {
-        let e2 = E2 { bound: *b, max_executions: 3_000_000, ..Default::default() };
+        let e2 = E2 { bound: *b, max_executions: 3_000_000, demotions: usize::from(thorough), bound_with_demotion: 2, ..Default::default() };
         let out = e2.explore(s);
         *per_bound.entry(out.stats.bound_completed).or_default() += 1;
         min_completed = min_completed.min(out.stats.bound_completed);
